@@ -436,51 +436,66 @@ Proof.
   replace (fst y <=? k)%N with true by (symmetry; apply N.leb_le; assumption). rewrite IH by assumption. reflexivity.
 Qed.
 
-Theorem refine_spec :
-  let r := {| start_ts := s;
-              start_area_ := fst (if (f_s =? s)%N then (SFound (N.of_nat (bs_s * L)), s)
-                                  else match post_s with
-                                       | [] => (STillEnd (N.of_nat (bs_s * L)), f_s)
-                                       | (f2, _) :: _ => if (f_s + MAXD <? s)%N then (SGap (N.of_nat ((bs_s + length ls_s + Layout.K p) * L)), f2)
-                                                         else (SWindow (N.of_nat (bs_s * L)) (N.of_nat ((bs_s + length ls_s) * L)), f_s)
-                                       end);
-              start_full := start_full_of;
-              end_ts := e;
-              end_area_ := fst (if (f_e =? e)%N then (EFound (N.of_nat (bs_e * L)), f_e)
-                                else match post_e with
-                                     | [] => (ETillEnd (N.of_nat (bs_e * L)), f_e)
-                                     | (f2, _) :: _ => if (f_e + MAXD <? e)%N then (EGap (N.of_nat ((bs_e + length ls_e) * L)), f_e)
-                                                       else (EWindow (N.of_nat (bs_e * L)) (N.of_nat ((bs_e + length ls_e) * L)), f_e)
-                                     end);
-              end_full := f_e |} in
-  refine r d fs = (fs, Ok (if end_pos <=? start_pos then None
-                           else Some {| p_start := N.of_nat start_pos; p_end := N.of_nat end_pos; p_full := start_full_of |})).
+Definition start_area_of : start_area * N :=
+  if (f_s =? s)%N then (SFound (N.of_nat (bs_s * L)), s)
+  else match post_s with
+       | [] => (STillEnd (N.of_nat (bs_s * L)), f_s)
+       | (f2, _) :: _ => if (f_s + MAXD <? s)%N then (SGap (N.of_nat ((bs_s + length ls_s + Layout.K p) * L)), f2)
+                         else (SWindow (N.of_nat (bs_s * L)) (N.of_nat ((bs_s + length ls_s) * L)), f_s)
+       end.
+Definition end_area_of : end_area * N :=
+  if (f_e =? e)%N then (EFound (N.of_nat (bs_e * L)), f_e)
+  else match post_e with
+       | [] => (ETillEnd (N.of_nat (bs_e * L)), f_e)
+       | (f2, _) :: _ => if (f_e + MAXD <? e)%N then (EGap (N.of_nat ((bs_e + length ls_e) * L)), f_e)
+                         else (EWindow (N.of_nat (bs_e * L)) (N.of_nat ((bs_e + length ls_e) * L)), f_e)
+       end.
+
+(* the two halves of refine, for any rough position *)
+Definition start_comp (r:rough) : M N :=
+  match start_area_ r with
+  | SFound x | SGap x => ret x
+  | SClipped => ret (line_start p 0)
+  | STillEnd s0 => let* st := lift (small_ts_of (start_ts r) (start_full r)) in find_read_start d st s0 (d_len d)
+  | SWindow s0 stop => let* st := lift (small_ts_of (start_ts r) (start_full r)) in find_read_start d st s0 stop
+  end.
+Definition end_comp (r:rough) : M N :=
+  match end_area_ r with
+  | EFound x => ret (x + line_size p)%N
+  | EGap x => ret x
+  | ETillEnd s0 => let* et := lift (small_ts_of (end_ts r) (end_full r)) in find_read_end d et s0 (d_len d)
+  | EWindow s0 stop => let* et := lift (small_ts_of (end_ts r) (end_full r)) in find_read_end d et s0 stop
+  end.
+Lemma refine_parts (r:rough) (sb eb:nat) :
+  start_comp r fs = (fs, Ok (N.of_nat sb)) -> end_comp r fs = (fs, Ok (N.of_nat eb)) ->
+  refine r d fs = (fs, Ok (if eb <=? sb then None
+                           else Some {| p_start := N.of_nat sb; p_end := N.of_nat eb; p_full := start_full r |})).
 Proof.
-  cbn zeta. destruct Ls as (Es & Hfs & Hns). destruct Le as (Ee & Hfe & Hne).
+  intros HS HE. unfold refine. rewrite Hp. unfold start_comp in HS. unfold end_comp in HE.
+  erewrite mbind_ok by exact HS. erewrite mbind_ok by exact HE.
+  replace (N.of_nat eb <=? N.of_nat sb)%N with (eb <=? sb).
+  2:{ destruct (eb <=? sb) eqn:C; symmetry; [apply N.leb_le; apply Nat.leb_le in C; lia|apply N.leb_gt; apply Nat.leb_gt in C; lia]. }
+  destruct (eb <=? sb); reflexivity.
+Qed.
+
+Lemma region_facts :
+  (post_s = [] -> d_len d = N.of_nat ((bs_s + length ls_s) * L))
+  /\ (post_e = [] -> d_len d = N.of_nat ((bs_e + length ls_e) * L)).
+Proof.
+  destruct Ls as (Es & _). destruct Le as (Ee & _). split; intros EP; rewrite Hlen; unfold region, len;
+    rewrite region_length by (apply good_pay_ok; exact G).
+  - rewrite Es, EP, slots_of_app. cbn [slots_of snd]. unfold bs_s. f_equal. lia.
+  - rewrite Ee, EP, slots_of_app. cbn [slots_of snd]. unfold bs_e. f_equal. lia.
+Qed.
+
+Lemma start_byte_spec (r:rough) : start_ts r = s -> start_area_ r = fst start_area_of -> start_full r = start_full_of ->
+  start_comp r fs = (fs, Ok (N.of_nat start_pos)).
+Proof.
+  intros E1 E2 E3. unfold start_comp. rewrite E1, E2, E3. unfold start_area_of.
+  destruct Ls as (Es & Hfs & Hns). destruct region_facts as [DLs _].
   assert (Gs : good_secs p (pre_s ++ (f_s, ls_s) :: post_s)) by (rewrite <- Es; exact G).
-  assert (Ge : good_secs p (pre_e ++ (f_e, ls_e) :: post_e)) by (rewrite <- Ee; exact G).
   assert (Fs : file_is fs (d_file d) hdr (concat (map (sec_bytes p) (pre_s ++ (f_s, ls_s) :: post_s)))) by (rewrite <- Es; exact Hfile).
-  assert (Fe : file_is fs (d_file d) hdr (concat (map (sec_bytes p) (pre_e ++ (f_e, ls_e) :: post_e)))) by (rewrite <- Ee; exact Hfile).
-  destruct (sec_facts d p pre_e f_e ls_e post_e Hp Ge) as (First_e & F_e & S_e & _ & _).
-  assert (DLs : post_s = [] -> d_len d = N.of_nat ((bs_s + length ls_s) * L)).
-  { intros EP. rewrite Hlen. unfold region, len. rewrite region_length by (apply good_pay_ok; exact G).
-    rewrite Es, EP, slots_of_app. cbn [slots_of snd]. unfold bs_s. f_equal. lia. }
-  assert (DLe : post_e = [] -> d_len d = N.of_nat ((bs_e + length ls_e) * L)).
-  { intros EP. rewrite Hlen. unfold region, len. rewrite region_length by (apply good_pay_ok; exact G).
-    rewrite Ee, EP, slots_of_app. cbn [slots_of snd]. unfold bs_e. f_equal. lia. }
-  (* the start byte *)
-  assert (START : (match fst (if (f_s =? s)%N then (SFound (N.of_nat (bs_s * L)), s)
-                                  else match post_s with
-                                       | [] => (STillEnd (N.of_nat (bs_s * L)), f_s)
-                                       | (f2, _) :: _ => if (f_s + MAXD <? s)%N then (SGap (N.of_nat ((bs_s + length ls_s + Layout.K p) * L)), f2)
-                                                         else (SWindow (N.of_nat (bs_s * L)) (N.of_nat ((bs_s + length ls_s) * L)), f_s)
-                                       end) with
-                   | SFound x | SGap x => ret x
-                   | SClipped => ret (line_start p 0)
-                   | STillEnd s0 => let* st := lift (small_ts_of s start_full_of) in find_read_start d st s0 (d_len d)
-                   | SWindow s0 stop => let* st := lift (small_ts_of s start_full_of) in find_read_start d st s0 stop
-                   end) fs = (fs, Ok (N.of_nat start_pos))).
-  { unfold start_pos, start_full_of. destruct (f_s =? s)%N eqn:EQ; [reflexivity|]. apply N.eqb_neq in EQ.
+  unfold start_pos, start_full_of. destruct (f_s =? s)%N eqn:EQ; [reflexivity|]. apply N.eqb_neq in EQ.
     destruct post_s as [|[f2 l2] post'] eqn:EP; cbn [fst].
     - specialize (Hs_reach eq_refl). unfold small_ts_of.
       replace (s <? f_s)%N with false by (symmetry; apply N.ltb_ge; exact Hfs).
@@ -492,20 +507,18 @@ Proof.
       replace (s <? f_s)%N with false by (symmetry; apply N.ltb_ge; exact Hfs).
       rewrite max_small_ts_eq. replace (MAXD <? s - f_s)%N with false by (symmetry; apply N.ltb_ge; lia).
       erewrite mbind_ok by reflexivity.
-      apply (find_read_start_spec fs d p hdr pre_s f_s ls_s ((f2, l2) :: post') Hp Fs Gs s); lia. }
-  (* the end byte *)
-  assert (END : (match fst (if (f_e =? e)%N then (EFound (N.of_nat (bs_e * L)), f_e)
-                                else match post_e with
-                                     | [] => (ETillEnd (N.of_nat (bs_e * L)), f_e)
-                                     | (f2, _) :: _ => if (f_e + MAXD <? e)%N then (EGap (N.of_nat ((bs_e + length ls_e) * L)), f_e)
-                                                       else (EWindow (N.of_nat (bs_e * L)) (N.of_nat ((bs_e + length ls_e) * L)), f_e)
-                                     end) with
-                 | EFound x => ret (x + line_size p)%N
-                 | EGap x => ret x
-                 | ETillEnd s0 => let* et := lift (small_ts_of e f_e) in find_read_end d et s0 (d_len d)
-                 | EWindow s0 stop => let* et := lift (small_ts_of e f_e) in find_read_end d et s0 stop
-                 end) fs = (fs, Ok (N.of_nat end_pos))).
-  { unfold end_pos. destruct (f_e =? e)%N eqn:EQ.
+      apply (find_read_start_spec fs d p hdr pre_s f_s ls_s ((f2, l2) :: post') Hp Fs Gs s); lia.
+Qed.
+
+Lemma end_byte_spec (r:rough) : end_ts r = e -> end_area_ r = fst end_area_of -> end_full r = f_e ->
+  end_comp r fs = (fs, Ok (N.of_nat end_pos)).
+Proof.
+  intros E1 E2 E3. unfold end_comp. rewrite E1, E2, E3. unfold end_area_of.
+  destruct Le as (Ee & Hfe & Hne). destruct region_facts as [_ DLe].
+  assert (Ge : good_secs p (pre_e ++ (f_e, ls_e) :: post_e)) by (rewrite <- Ee; exact G).
+  assert (Fe : file_is fs (d_file d) hdr (concat (map (sec_bytes p) (pre_e ++ (f_e, ls_e) :: post_e)))) by (rewrite <- Ee; exact Hfile).
+  destruct (sec_facts d p pre_e f_e ls_e post_e Hp Ge) as (First_e & F_e & S_e & _ & _).
+  unfold end_pos. destruct (f_e =? e)%N eqn:EQ.
     - apply N.eqb_eq in EQ. cbn [fst]. rewrite (count_le_first ls_e f_e e First_e S_e EQ).
       unfold ret, line_size. f_equal. f_equal. lia.
     - apply N.eqb_neq in EQ. destruct post_e as [|[f2 l2] post'] eqn:EP; cbn [fst].
@@ -521,12 +534,19 @@ Proof.
           replace (e <? f_e)%N with false by (symmetry; apply N.ltb_ge; exact Hfe).
           rewrite max_small_ts_eq. replace (MAXD <? e - f_e)%N with false by (symmetry; apply N.ltb_ge; lia).
           erewrite mbind_ok by reflexivity.
-          apply (find_read_end_spec fs d p hdr pre_e f_e ls_e ((f2, l2) :: post') Hp Fe Ge e); [exact Hfe|lia]. }
-  unfold refine. cbn [start_area_ end_area_ start_full end_full start_ts end_ts].
-  rewrite Hp. erewrite mbind_ok by exact START. erewrite mbind_ok by exact END.
-  replace (N.of_nat end_pos <=? N.of_nat start_pos)%N with (end_pos <=? start_pos).
-  2:{ destruct (end_pos <=? start_pos) eqn:C; symmetry; [apply N.leb_le; apply Nat.leb_le in C; lia|apply N.leb_gt; apply Nat.leb_gt in C; lia]. }
-  destruct (end_pos <=? start_pos); reflexivity.
+          apply (find_read_end_spec fs d p hdr pre_e f_e ls_e ((f2, l2) :: post') Hp Fe Ge e); [exact Hfe|lia].
+Qed.
+
+Theorem refine_spec :
+  let r := {| start_ts := s; start_area_ := fst start_area_of; start_full := start_full_of;
+              end_ts := e; end_area_ := fst end_area_of; end_full := f_e |} in
+  refine r d fs = (fs, Ok (if end_pos <=? start_pos then None
+                           else Some {| p_start := N.of_nat start_pos; p_end := N.of_nat end_pos; p_full := start_full_of |})).
+Proof.
+  cbn zeta.
+  set (r := {| start_ts := s; start_area_ := fst start_area_of; start_full := start_full_of;
+               end_ts := e; end_area_ := fst end_area_of; end_full := f_e |}).
+  exact (refine_parts r start_pos end_pos (start_byte_spec r eq_refl eq_refl eq_refl) (end_byte_spec r eq_refl eq_refl eq_refl)).
 Qed.
 End Refine.
 
